@@ -341,6 +341,12 @@ func checkClaims(r *ev.Run, prop string) {
 			return
 		}
 		c := genClaimsCase(r.Seed, si, prop)
+		if prop == "C31" && si%2 == 1 {
+			// the node also serves dispatch requests for every application x chain around every block: claim validation
+			// then meets sessions in its session cache instead of computing them
+			c.Script, _ = perturbDispatchAll(c.Script)
+			r.Count("cases_with_dispatch_traffic", 1)
+		}
 		res, err := chain.RunChild(chain.SelfBin(), c.Script, nil, childTimeout)
 		if err != nil || res.TimedOut {
 			r.Inconclusive(fmt.Sprintf("case %d: node process did not run (%v)", si, err))
@@ -417,7 +423,9 @@ func checkClaims(r *ev.Run, prop string) {
 					r.Count("claims_accepted", 1)
 					w := wit(map[string]interface{}{"claim_class": cl.Class, "height": curH, "tx_index": rec.TxIndex, "session_height": cl.SBH, "session_end": end, "proof_height": ph, "dyn": d})
 					if prop == "C31" {
-						if d.SelectorKnown {
+						if d.SelectorKnown && curH > ph {
+							r.Violation("claim-accepted/after-proof-height", fmt.Sprintf("case %d (B=%d W=%d): a claim for session %d was accepted at height %d, after the proof height %d whose header carries the selecting hash (predicted index %d of %d)", si, cl.B, cl.W, cl.SBH, curH, ph, d.Required, d.Total), w)
+						} else if d.SelectorKnown {
 							r.Violation("claim-accepted/selector-already-committed", fmt.Sprintf("case %d (B=%d W=%d): a claim for session %d was accepted at height %d; the hash of block %d, which selects the leaf to prove, was committed before that claim was written (predicted index %d of %d)", si, cl.B, cl.W, cl.SBH, curH, ph-1, d.Required, d.Total), w)
 						}
 						break
